@@ -179,11 +179,32 @@ class C02(C01):
         "HappyModel.C01.relay_forwards",
         "HappyModel.C01.relay_stops",
         "HappyModel.C01.hops_by_tag",
+        "HappyModel.C01.delay_clauses_silent_on_model",
+        "HappyModel.C01.delay_clauses_silent_on_program",
+        "HappyModel.C01.delayMonitor_filter",
+        "HappyModel.C01.wait_clause_silent_on_model",
+        "HappyModel.C01.wait_clause_silent_on_program",
+        "HappyModel.C01.waitMonitor_filter",
+        "HappyModel.C01.process_trace_satisfies_c02_spec_delay_wait",
+        "HappyModel.C01.hook_clauses_silent_on_model",
+        "HappyModel.C01.hook_clauses_silent_on_program",
         "HappyModel.C01.delivered_sorted",
         "HappyModel.C01.at_most_once",
         "HappyModel.C01.pop_verdict",
     ]
     partial_theorems = {
+        "HappyModel.C01.delay_clauses_silent_on_model":
+            "link between the C02 trace Spec and the model, clause group by clause group: the delay clauses "
+            "(process/resumed-without-pending-delay, delay-resume-at-wrong-time, delay-resume-raised, delay-resume-with-value: "
+            "Spec.delayMonitor), future/resumed-without-wait (Spec.waitMonitor) and the hook clauses (process/hook/not-run-at-finish, "
+            "ran-without-being-due, ran-out-of-order, ran-at-wrong-instant: Spec.hookMonitor, incl. hooks added to an event in flight) are "
+            "proved silent on the lines the model itself writes (`delayView`: R / y / w lines; `hookView`: S / K / F / h / H lines with "
+            "creation index + 1 as event tag and the h lines in action order; both built along `run`), for every handler table, plain "
+            "initial state, end time and number of iterations; the delay and wait monitors provably read no other line (`*_filter`). "
+            "Each of these signatures is raised by its monitor only (the remaining fold of the judge no longer checks them). Not "
+            "linked: the clauses that need the judge's declarative resolution of futures (`settle`: future/resumed-before-resolved, "
+            "resumed-with-wrong-value, resumed-at-wrong-instant, value-raised-instead-of-sent, resolved-but-never-resumed); one "
+            "line-by-line ghost trace carrying all line kinds at once is not defined (the two views are separate projections)",
         "HappyModel.C01.one_pending_continuation":
             "the invariant is 'at most one pending resumption per process', not 'exactly one': the model (like the "
             "harness) lets a second process park on a future that already has one and lets a slot be rebound, where "
